@@ -24,6 +24,9 @@ def get_samples(self, num_samples):
 '''
 REF_UPDATE_NOISE = '''
 def update_noise(self, stats_calc_num_samples=10000):
+    # the estimate comes from a probe request; afterwards the stream is exactly where it was (C10 quantifies over
+    # interleaved update_noise calls): clock and start flag are put back -- the generators are handled by the
+    # GENSTATE obligations of the rule, not by this reference
     start_obs = self.start_obs
     t_start = self.t_start
     v = self.get_samples(num_samples=stats_calc_num_samples)
@@ -121,7 +124,7 @@ def __init__(self, sample_rate=3*u.GHz, fch1=0*u.GHz, ascending=True, num_pols=2
     self.bg_cache = [None, None]
 """
     agree_ref(ctx, ctx.func(DS + '__init__'), REF_DS_INIT, 'DataStream.__init__: clock starts at t_start with the start-of-observation '
-              'flag set, no sources', what=('attrstores',), expand=False, max_depth=0)
+              'flag set, no sources', what=('attrstores',), expand=False, max_depth=0, ref_attrs_only=True)
     agree_ref(ctx, ctx.func(AN + '__init__'), REF_ANT_INIT, 'Antenna.__init__: x and y streams built with the antenna\'s rate, band, '
               'orientation and start time', what=('attrstores', 'calls', 'asserts'), expand=False, max_depth=0)
 
@@ -156,12 +159,58 @@ def __init__(self, sample_rate=3*u.GHz, fch1=0*u.GHz, ascending=True, num_pols=2
     ctx.formula('FORMULA', 'add_time: start_obs == True', at, selfattr(r, 'start_obs') or T.NONE, T.TRUE, node=at.node, construct='self.start_obs')
     un = ctx.func(DS + 'update_noise')
     (r, I), _ = agree_ref(ctx, un, REF_UPDATE_NOISE, 'update_noise: noise estimate from a request, clock and start flag restored afterwards',
-                          what=('heap', 'calls'), no_inline=(DS + 'get_samples', 'voltage.data_stream.estimate_stats'), expand=False)
+                          what=('heap', 'calls'), no_inline=(DS + 'get_samples', 'voltage.data_stream.estimate_stats'), expand=False,
+                          ref_attrs_only=True)
     calls = [e for e in I.events if e.kind == 'call' and e.data.get('name') == DS + 'get_samples']
     rest = [e for e in I.events if e.kind == 'store' and e.data.get('target') == 'attr' and e.data.get('name') in ('t_start', 'start_obs') and e.func.short == un.short]
     ok = bool(calls) and len(rest) >= 2 and all(e.seq > calls[-1].seq and not e.pc for e in rest)
     ctx.ob('RESTORE', 'the clock and start flag are re-assigned from the saved values after the request', un, ok,
            {'request': [e.text() for e in calls], 'restores': [e.text() for e in rest]}, node=un.node, construct='restore after get_samples')
+    # GENSTATE: the probe request must not consume the stream's random generators -- seeded noise after update_noise has to be
+    # the noise an uninterrupted stream would have produced.  Accepted realisations: the probe runs while every generator
+    # attribute is bound to a copy and the original objects are put back afterwards; or the generator state is saved and
+    # assigned back.
+    gens = sorted({e.data['name'] for f2 in (ctx.func(DS + '__init__'), ctx.func(DS + 'add_noise'))
+                   for e in ctx.run(f2, expand=False, max_depth=0)[1].events
+                   if e.kind == 'store' and e.data.get('target') == 'attr' and e.data['base'].key == sym('self').key
+                   and any(a.kind == 'call' and a.args[0] in ('default_rng',) for a in T.all_atoms(e.data['value']).values())}
+                  | {e.data['recv'].single_atom().args[1] for e in ctx.run(ctx.func(DS + 'add_noise'), expand=False, max_depth=0)[1].events
+                     if e.kind == 'call' and e.data.get('name') == '.append' and e.data.get('recv') is not None
+                     and e.data['recv'].single_atom() is not None and e.data['recv'].single_atom().kind == 'attr'
+                     and any(a.kind == 'call' and a.args[0] == 'default_rng' or (a.kind == 'attr' and a.args[1] == 'rng')
+                             for a in T.all_atoms(e.data['args'][1]).values())})
+    ctx.require('rng' in gens, 'DataStream: the generator attribute `rng` was not found (GENSTATE anchor)')
+    for g in gens:
+        st_g = [e for e in I.events if e.kind == 'store' and e.data.get('target') == 'attr' and e.data.get('name') == g
+                and e.data['base'].key == sym('self').key]
+        before = [e for e in st_g if calls and e.seq < calls[-1].seq and
+                  any(a.kind == 'call' and a.args[0] in ('deepcopy', 'copy') for a in T.all_atoms(e.data['value']).values())]
+        after = [e for e in st_g if calls and e.seq > calls[-1].seq]
+        orig = T.mk_attr(sym('self'), g)
+        swapped = bool(before) and bool(after) and after[-1].data['value'].key == orig.key
+        state_saved = any(e.kind == 'store' and e.data.get('target') == 'attr' and e.data.get('name') == 'state' and calls
+                          and e.seq > calls[-1].seq and g in pretty(e.data['base']) for e in I.events)
+        ctx.ob('GENSTATE', f'update_noise leaves the generator(s) in `self.{g}` as they were: the probe request draws from copies (or the '
+               'generator state is saved and assigned back)', un, swapped or state_saved,
+               {'stores': [e.text() for e in st_g]}, node=(st_g[0].node if st_g else un.node), construct=f'self.{g} around the probe request')
+    # SHAREDGEN: with several noise sources on one stream, a generator shared by the sources is consumed in an order that
+    # depends on how requests are chunked; every source after the first must draw from a generator of its own
+    dsa = ctx.func(DS + 'add_noise')
+    ra, Ia = ctx.run(dsa, expand=False)
+    appn = [e for e in Ia.events if e.kind == 'call' and e.data.get('name') == '.append' and 'noise_sources' in ast.unparse(e.data['recv_node'])]
+    ctx.require(appn, 'DataStream.add_noise no longer appends a noise source')
+    val = ctx.apply(Ia, dsa, appn[-1].data['args'][1], [sym('ts')])
+    draws = [a for a in T.all_atoms(val).values() if a.kind == 'call' and a.args[0] in ('standard_normal', 'normal') and a.args[1]]
+    ctx.require(draws, 'DataStream.add_noise: the noise source no longer draws from a generator')
+    shared = T.mk_attr(sym('self'), 'rng')
+    own = [d for d in draws if d.args[1][0].key != shared.key and
+           any(a.kind == 'call' and a.args[0] in ('default_rng', 'spawn', 'SeedSequence') for a in T.all_atoms(d.args[1][0]).values())]
+    # (the value of the source is a case split over "is this the first source": the stream's own generator may serve the
+    #  first source; some case must use a generator created for the source)
+    ok_g = bool(own)
+    ctx.ob('SHAREDGEN', 'a second noise source on a stream draws from a generator of its own (not from the generator the first '
+           'source uses), so seeded noise does not depend on how requests are chunked', dsa, ok_g,
+           {'generators_drawn_from': sorted({pretty(d.args[1][0])[:120] for d in draws})}, node=appn[-1].node, construct='generator of the appended noise source')
 
     # ---- D5 antenna
     ctx.clause = 'D5'
